@@ -207,6 +207,139 @@ Definition refs_ok (w : world) : bool := forallb (refs_ok_model w) (w_models w).
 
 End Index.
 
+(* ====================================================================== invariants, table facts, finding classes *)
+Section Inv.
+Variable T : tables.
+Variable tab_el tab_en : nametab.
+Variable check_fn : N -> list N -> res bool.
+Variable LATEST : N.
+
+Definition SHORTN := name_short_name T.
+
+(* a type fit for SHORT-NAME elements: character content, and every accepted value is a string without '/' *)
+Definition short_type (ty : N * N) : Prop :=
+  content_mode T ty = Val MCharacters /\
+  forall cs v ver, chardata_spec T ty = Val (Some cs) -> check_value check_fn v cs ver = Val true ->
+    exists s, v = DString s /\ ~ In 47 s.
+
+(* what the theorems assume about the specification tables (true of the generated tables: the SHORT-NAME types are
+   character types validated by an identifier pattern; reference types are character types) *)
+Record TablesOK : Prop := {
+  tk_short : forall ty v et ix, find_sub_element T ty SHORTN v = Val (Some (et, ix)) -> short_type et;
+  tk_ref : forall ty, is_ref T ty = Val true -> content_mode T ty = Val MCharacters;
+  tk_root : forall ed, elem T (autosar_element T) = Val ed -> ed_name ed <> SHORTN
+}.
+
+(* side invariants about ALL allocated nodes *)
+Definition ShortTyped (w : world) : Prop :=
+  forall i n, w_nodes w i = Some n -> n_name n = SHORTN -> short_type (n_type n).
+Definition SlashFree (w : world) : Prop :=
+  forall i n s, w_nodes w i = Some n -> n_name n = SHORTN -> cdata_of T n = Some (DString s) -> ~ In 47 s.
+Definition AllNamed (w : world) : Prop :=
+  forall i n, w_nodes w i = Some n -> identifiable_n T w n = true -> item_name_n T w n <> None.
+
+Record Inv04 (w : world) : Prop := {
+  i4_short : ShortTyped w;
+  i4_slash : SlashFree w;
+  i4_named : AllNamed w;
+  i4_exact : forall m, IndexExact T w m;
+  i4_nodup : forall m, IndexNoDup w m
+}.
+
+(* ---------- classes of (state, operation) on which the code breaks C04 (findings; each has a witness in
+   Tree/IndexProofsRefuted.v) *)
+Definition is_short_node (w : world) (i : id) : bool :=
+  match w_nodes w i with Some n => n_name n =? SHORTN | None => false end.
+Definition named_node (w : world) (i : id) : bool :=
+  match w_nodes w i with Some n => named T (n_type n) | None => false end.
+Definition has_elems (w : world) (i : id) : bool :=
+  match w_nodes w i with Some n => negb (is_empty (elem_ids (n_content n))) | None => false end.
+Definition nm_of (w : world) (i : id) : N := match w_nodes w i with Some n => n_name n | None => 0 end.
+
+(* the position at which a creator without explicit position inserts: the end of the insert range *)
+Definition range_of (w : world) (h name : N) : option (N * N) :=
+  match min_version LATEST h w with
+  | Val (OK v, _) =>
+    match w_nodes w h with
+    | Some n => match calc_element_insert_range T n name v w with Val (OK r, _) => Some r | _ => None end
+    | None => None
+    end
+  | _ => None
+  end.
+Definition ins_pos (w : world) (h name : N) (pos : option N) : option N :=
+  match pos with Some p => Some p | None => option_map snd (range_of w h name) end.
+
+(* K04-front: something is put in FRONT of the content of h, where h is identifiable (its SHORT-NAME is no longer the
+   first item: h silently stops being identifiable but keeps its index entry), or h is of a named type and the new
+   first item is a SHORT-NAME element (h silently becomes identifiable, without index entry).
+   Real tables: possible for mixed-content named types with the _at variants; never for Sequence types. *)
+Definition front (w : world) (h name : N) (pos : option N) : bool :=
+  match ins_pos w h name pos with
+  | Some 0 => identifiable T w h || (named_node w h && (name =? SHORTN))
+  | _ => false
+  end.
+
+Definition key_of (i : id) (l : list (list N * id)) : option (list N) :=
+  option_map fst (find (fun e => snd e =? i) l).
+Definition new_name_of (v : cdata) : list N :=
+  match v with DString s => s | _ => match cdata_to_string tab_en v with Val s => s | _ => [] end end.
+
+(* K04-edit: the text of the SHORT-NAME of an identifiable element is edited directly to a name under which another
+   element is already registered: no duplicate check, fix_identifiables re-keys onto the existing key *)
+Definition short_edit_collides (w : world) (h : id) (v : cdata) : bool :=
+  match w_nodes w h with
+  | Some n =>
+    (n_name n =? SHORTN) &&
+    match n_parent n, cdata_of T n with
+    | PElem p, Some (DString oldname) =>
+      match w_nodes w p with
+      | Some pn =>
+        match n_content pn with
+        | CElem s :: _ =>
+          (s =? h) && named T (n_type pn) &&
+          existsb (fun x =>
+            match key_of p (m_idents x) with
+            | Some pp =>
+              match strip_suffix oldname pp with
+              | Some base => let np := base ++ new_name_of v in
+                             negb (bytes_eqb np pp) && match assoc_get np (m_idents x) with Some _ => true | None => false end
+              | None => false
+              end
+            | None => false
+            end) (w_models w)
+        | _ => false
+        end
+      | None => false
+      end
+    | _, _ => false
+    end
+  | None => false
+  end.
+
+Definition Known04 (w : world) (o : op) : bool :=
+  match o with
+  | OpCreateSub h name | OpGetOrCreate h name | OpCreateNamed h name _ | OpGetOrCreateNamed h name _ => front w h name None
+  | OpCreateSubAt h name pos | OpCreateNamedAt h name _ pos => front w h name (Some pos)
+  | OpCopy h other => front w h (nm_of w other) None
+  | OpCopyAt h other pos => front w h (nm_of w other) (Some pos)
+  (* K04-move-short: a SHORT-NAME element is moved away from / into an element *)
+  | OpMove h mv => is_short_node w mv || front w h (nm_of w mv) None
+  | OpMoveAt h mv pos => is_short_node w mv || front w h (nm_of w mv) (Some pos)
+  (* K04-mixed-text: text is set on an element that has sub-elements: they are dropped without index cleanup *)
+  | OpSetCData h v => has_elems w h || short_edit_collides w h v
+  (* K04-front for text items of mixed content *)
+  | OpInsertCItem h _ pos => (pos =? 0) && identifiable T w h
+  | OpRemoveCItem h pos =>
+    (pos =? 0) && named_node w h &&
+    match w_nodes w h with
+    | Some n => match n_content n with _ :: CElem s :: _ => is_short_node w s | _ => false end
+    | None => false
+    end
+  | _ => false
+  end.
+
+End Inv.
+
 (* ====================================================================== a tiny table set and a script runner *)
 Module Tiny.
 (* element names = element definitions = data types:
